@@ -44,7 +44,7 @@ use mzv::{
         ars::ArsBudget,
         catalogue::*,
         plonk_util::params_for,
-        ref_eval::{collect, CollectOpts},
+        ref_eval::{collect, CellRef, CollectOpts},
     },
 };
 use rand::{seq::SliceRandom, Rng, SeedableRng};
@@ -237,7 +237,27 @@ fn check_mix(case: &MixCase, max_edit_positions: usize, rep: &mut Report, st: &m
     let culprit = match catch_any(|| collect::<F, _>(k, &circuit, &[committed.clone(), plain.clone()], CollectOpts::default())) {
         Ok(Ok(t)) => {
             let mut c = None;
+            // (a) the row counter: instance rows must be bound in order 0, 1, 2, ...; the first
+            // anomaly is charged to the exposure just before it (it left the counter wrong)
+            for col in [0usize, 1] {
+                let rows: Vec<usize> = t
+                    .copies
+                    .iter()
+                    .filter_map(|(a, b)| match (a, b) {
+                        (CellRef::Instance(cc, r), _) | (_, CellRef::Instance(cc, r)) if *cc == col => Some(*r),
+                        _ => None,
+                    })
+                    .collect();
+                if let Some(j) = (0..rows.len()).find(|j| rows[*j] != *j) {
+                    c = case.item_at(col, j.saturating_sub(1));
+                    break;
+                }
+            }
+            // (b) otherwise the first position whose bound value differs from the encoding
             for (col, exp) in [(0usize, &committed), (1usize, &plain)] {
+                if c.is_some() {
+                    break;
+                }
                 let b = bound_instance(&t, col, &[]);
                 let n = b.len().max(exp.len());
                 if let Some(pos) = (0..n).find(|i| b.get(*i) != exp.get(*i)) {
